@@ -12,9 +12,11 @@ void MemoryInterface::SetMMIO(MMIORegion& mmio) {
 }
 
 u16 MemoryInterface::ProgramRead(u32 address) const {
+    ASSERT(address < 0x40000);
     return shared_memory.ReadWord(address);
 }
 void MemoryInterface::ProgramWrite(u32 address, u16 value) {
+    ASSERT(address < 0x40000);
     shared_memory.WriteWord(address, value);
 }
 u16 MemoryInterface::DataRead(u16 address, bool bypass_mmio) {
